@@ -153,6 +153,10 @@ func NewLRURevisionCache(revCacheOptions *RevisionCacheOptions, backingStores ma
 // any error returned by the loaderFunction will be returned from Get. Any successful load will return true for
 // flag to check for memory based eviction.
 func (rc *LRURevisionCache) Get(ctx context.Context, docID, versionString string, collectionID uint32, loadBackup bool) (DocumentRevision, bool, error) {
+	if base.VerifOn {
+		verifRCCall(rc, "Get", docID, versionString)
+		defer verifRCRet(rc)
+	}
 	value := rc.getValue(ctx, docID, versionString, collectionID, true)
 	if value == nil {
 		return DocumentRevision{}, false, nil
@@ -167,10 +171,27 @@ func (rc *LRURevisionCache) Get(ctx context.Context, docID, versionString string
 		// the load completed (reading itemBytes=0) cannot result in a permanently inflated stat.
 		// If Remove already set memStateRemoved the CAS fails and we skip the increment — the
 		// item is gone and its bytes were never decremented, so no increment is needed either.
+		if base.VerifOn {
+			verifAtomLock()
+		}
 		if !value.memState.CompareAndSwap(memStateLoading, memStateSized) {
 			incrementStatEvent = false
+			if base.VerifOn {
+				verifRCAtomic(rc, "Cas", value, "ok", false)
+			}
 		} else {
+			if base.VerifOn {
+				verifRCAtomic(rc, "Cas", value, "ok", true)
+				verifAtomUnlock()
+				verifAtomLock()
+			}
 			rc.memoryController.incrementBytesCount(value.getItemBytes())
+			if base.VerifOn {
+				verifRCAtomic(rc, "Add", value, "bytes", value.getItemBytes())
+			}
+		}
+		if base.VerifOn {
+			verifAtomUnlock()
 		}
 	}
 
@@ -190,6 +211,10 @@ func (rc *LRURevisionCache) GetWithDelta(ctx context.Context, docID, fromVersion
 // Looks up a revision from the cache only.  Will not fall back to loader function if not
 // present in the cache.
 func (rc *LRURevisionCache) Peek(ctx context.Context, docID string, versionString string, collectionID uint32) (docRev DocumentRevision, found bool) {
+	if base.VerifOn {
+		verifRCCall(rc, "Peek", docID, versionString)
+		defer verifRCRet(rc)
+	}
 	value := rc.peekCacheForKey(ctx, CreateRevisionCacheKey(docID, versionString, collectionID))
 	if value == nil {
 		return DocumentRevision{}, false
@@ -218,6 +243,10 @@ func (rc *LRURevisionCache) UpdateDelta(ctx context.Context, docID, fromVersionS
 // initial retrieval. Returns document revision, bool to indicate to caller whether we should check for memory based
 // eviction or not, and any error.
 func (rc *LRURevisionCache) GetActive(ctx context.Context, docID string, collectionID uint32) (DocumentRevision, bool, error) {
+	if base.VerifOn {
+		verifRCCall(rc, "GetActive", docID, "")
+		defer verifRCRet(rc)
+	}
 
 	// Look up active rev for doc.  Note - can't rely on DocUnmarshalAll here when includeBody=true, because for a
 	// cache hit we don't want to do that work (yet).
@@ -243,10 +272,27 @@ func (rc *LRURevisionCache) GetActive(ctx context.Context, docID string, collect
 		// the load completed (reading itemBytes=0) cannot result in a permanently inflated stat.
 		// If Remove already set memStateRemoved the CAS fails and we skip the increment — the
 		// item is gone and its bytes were never decremented, so no increment is needed either.
+		if base.VerifOn {
+			verifAtomLock()
+		}
 		if !value.memState.CompareAndSwap(memStateLoading, memStateSized) {
 			incrementStatEvent = false
+			if base.VerifOn {
+				verifRCAtomic(rc, "Cas", value, "ok", false)
+			}
 		} else {
+			if base.VerifOn {
+				verifRCAtomic(rc, "Cas", value, "ok", true)
+				verifAtomUnlock()
+				verifAtomLock()
+			}
 			rc.memoryController.incrementBytesCount(value.getItemBytes())
+			if base.VerifOn {
+				verifRCAtomic(rc, "Add", value, "bytes", value.getItemBytes())
+			}
+		}
+		if base.VerifOn {
+			verifAtomUnlock()
 		}
 	}
 
@@ -268,6 +314,10 @@ func (rc *LRURevisionCache) statsRecorderFunc(cacheHit bool) {
 
 // Put adds a revision to the cache. NOTE: this function only adds an entry keyed by CV
 func (rc *LRURevisionCache) Put(ctx context.Context, docRev DocumentRevision, collectionID uint32) error {
+	if base.VerifOn {
+		verifRCCall(rc, "Put", docRev.DocID, verifCV(docRev.CV))
+		defer verifRCRet(rc)
+	}
 	if err := docRev.Validate(); err != nil {
 		return err
 	}
@@ -277,11 +327,37 @@ func (rc *LRURevisionCache) Put(ctx context.Context, docRev DocumentRevision, co
 	docRev.CalculateBytes()
 	// Store itemBytes on the value before the CAS so that a concurrent Remove or eviction
 	// that wins the Swap to memStateRemoved will read the correct size.
+	if base.VerifOn {
+		verifAtomLock()
+	}
 	value.itemBytes.Store(docRev.MemoryBytes)
+	if base.VerifOn {
+		verifRCAtomic(rc, "SBytes", value, "bytes", docRev.MemoryBytes)
+		verifAtomUnlock()
+	}
+	var verifCasOK bool
+	if base.VerifOn {
+		verifAtomLock()
+	}
 	// CAS guards against double-counting if this key already exists and is memStateSized,
 	// and against incrementing for an item that was concurrently removed (memStateRemoved).
 	if value.memState.CompareAndSwap(memStateLoading, memStateSized) {
+		if base.VerifOn {
+			verifCasOK = true
+			verifRCAtomic(rc, "PCas", value, "ok", true)
+			verifAtomUnlock()
+			verifAtomLock()
+		}
 		rc.memoryController.incrementBytesCount(docRev.MemoryBytes)
+		if base.VerifOn {
+			verifRCAtomic(rc, "PAdd", value, "bytes", docRev.MemoryBytes)
+		}
+	}
+	if base.VerifOn {
+		if !verifCasOK {
+			verifRCAtomic(rc, "PCas", value, "ok", false)
+		}
+		verifAtomUnlock()
 	}
 	value.store(docRev)
 	return nil
@@ -290,6 +366,10 @@ func (rc *LRURevisionCache) Put(ctx context.Context, docRev DocumentRevision, co
 // Upsert a revision in the cache. This function only upserts for CV key
 func (rc *LRURevisionCache) Upsert(ctx context.Context, docRev DocumentRevision, collectionID uint32) error {
 
+	if base.VerifOn {
+		verifRCCall(rc, "Upsert", docRev.DocID, verifCV(docRev.CV))
+		defer verifRCRet(rc)
+	}
 	if err := docRev.Validate(); err != nil {
 		return err
 	}
@@ -298,15 +378,48 @@ func (rc *LRURevisionCache) Upsert(ctx context.Context, docRev DocumentRevision,
 
 	numItemsRemoved, cvValue := rc.upsertDocToCache(ctx, cvKey, docRev, collectionID)
 	if numItemsRemoved > 0 {
+		if base.VerifOn {
+			verifAtomLock()
+		}
 		rc.cacheNumItems.Add(-numItemsRemoved)
+		if base.VerifOn {
+			verifRCAtomic(rc, "UpDec", cvValue, "dec", numItemsRemoved)
+			verifAtomUnlock()
+		}
 	}
 
 	docRev.CalculateBytes()
+	if base.VerifOn {
+		verifAtomLock()
+	}
 	// Store itemBytes before the CAS for the same reason as in Put.
 	cvValue.itemBytes.Store(docRev.MemoryBytes)
+	if base.VerifOn {
+		verifRCAtomic(rc, "SBytes", cvValue, "bytes", docRev.MemoryBytes)
+		verifAtomUnlock()
+	}
+	var verifCasOK bool
+	if base.VerifOn {
+		verifAtomLock()
+	}
 	// CAS guards against incrementing for a value that was concurrently removed.
 	if cvValue.memState.CompareAndSwap(memStateLoading, memStateSized) {
+		if base.VerifOn {
+			verifCasOK = true
+			verifRCAtomic(rc, "PCas", cvValue, "ok", true)
+			verifAtomUnlock()
+			verifAtomLock()
+		}
 		rc.memoryController.incrementBytesCount(docRev.MemoryBytes)
+		if base.VerifOn {
+			verifRCAtomic(rc, "PAdd", cvValue, "bytes", docRev.MemoryBytes)
+		}
+	}
+	if base.VerifOn {
+		if !verifCasOK {
+			verifRCAtomic(rc, "PCas", cvValue, "ok", false)
+		}
+		verifAtomUnlock()
 	}
 	cvValue.store(docRev)
 	return nil
@@ -315,6 +428,12 @@ func (rc *LRURevisionCache) Upsert(ctx context.Context, docRev DocumentRevision,
 func (rc *LRURevisionCache) upsertDocToCache(ctx context.Context, cvKey revCacheKey, docRev DocumentRevision, collectionID uint32) (int64, *revCacheValue) {
 	rc.lock.Lock()
 	defer rc.lock.Unlock()
+	if base.VerifOn {
+		verifAtomLock()
+		defer verifAtomUnlock()
+	}
+	var verifOld *revCacheValue
+	var verifOldMs int32
 
 	newItem := true
 	// lookup for element in hlv lookup map, if not found for some reason try rev lookup map
@@ -323,6 +442,9 @@ func (rc *LRURevisionCache) upsertDocToCache(ctx context.Context, cvKey revCache
 	existingElem, found = rc.cache[cvKey]
 	if found {
 		revItem := existingElem.Value.(*revCacheValue)
+		if base.VerifOn {
+			verifOld, verifOldMs = revItem, revItem.memState.Load()
+		}
 		// Swap to removed and only decrement if bytes were already accounted (memStateSized).
 		// If the old item was still loading its increment CAS will now fail, so no decrement needed.
 		if revItem.memState.Swap(memStateRemoved) == memStateSized {
@@ -348,15 +470,25 @@ func (rc *LRURevisionCache) upsertDocToCache(ctx context.Context, cvKey revCache
 	if numBytesEvicted > 0 {
 		rc.memoryController.decrementBytesCount(numBytesEvicted)
 	}
+	if base.VerifOn {
+		verifRCLocked(rc, "UpsertToCache", cvValue, "doc", cvKey.docID, "ver", cvKey.docVersion, "old", verifPtr(verifOld), "oldms", verifOldMs, "oldbytes", verifBytes(verifOld), "nrem", numItemsRemoved)
+	}
 	return numItemsRemoved, cvValue
 }
 
 func (rc *LRURevisionCache) peekCacheForKey(ctx context.Context, key revCacheKey) (value *revCacheValue) {
 	rc.lock.Lock()
 	defer rc.lock.Unlock()
+	if base.VerifOn {
+		verifAtomLock()
+		defer verifAtomUnlock()
+	}
 	if elem := rc.cache[key]; elem != nil {
 		rc.lruList.MoveToFront(elem)
 		value = elem.Value.(*revCacheValue)
+	}
+	if base.VerifOn {
+		verifRCLocked(rc, "PeekGet", value, "doc", key.docID, "ver", key.docVersion)
 	}
 	return
 }
@@ -368,9 +500,15 @@ func (rc *LRURevisionCache) getValue(ctx context.Context, docID, docVersionStrin
 	key := CreateRevisionCacheKey(docID, docVersionString, collectionID)
 	rc.lock.Lock()
 	defer rc.lock.Unlock()
+	if base.VerifOn {
+		verifAtomLock()
+		defer verifAtomUnlock()
+	}
+	verifHit := false
 	if elem := rc.cache[key]; elem != nil {
 		rc.lruList.MoveToFront(elem)
 		value = elem.Value.(*revCacheValue)
+		verifHit = true
 	} else if create {
 		value = &revCacheValue{id: docID, collectionID: collectionID, itemKey: key}
 		if currentVersion, parseErr := ParseVersion(docVersionString); parseErr != nil {
@@ -389,21 +527,39 @@ func (rc *LRURevisionCache) getValue(ctx context.Context, docID, docVersionStrin
 			rc.cacheNumItems.Add(-numItemsRemoved)
 		}
 	}
+	if base.VerifOn {
+		verifRCLocked(rc, "GetValue", value, "doc", docID, "ver", docVersionString, "hit", verifHit)
+	}
 	return
 }
 
 // Remove removes a rev from revision cache lookup map, if present.
 func (rc *LRURevisionCache) Remove(ctx context.Context, docID, versionString string, collectionID uint32) {
+	if base.VerifOn {
+		verifRCCall(rc, "Remove", docID, versionString)
+		defer verifRCRet(rc)
+	}
 	key := CreateRevisionCacheKey(docID, versionString, collectionID)
 	rc.lock.Lock()
 	defer rc.lock.Unlock()
+	if base.VerifOn {
+		verifAtomLock()
+		defer verifAtomUnlock()
+	}
 	elem, ok := rc.cache[key]
 	if !ok {
+		if base.VerifOn {
+			verifRCLocked(rc, "Remove", nil, "doc", docID, "ver", versionString, "found", false)
+		}
 		return
 	}
 	revValue, ok := elem.Value.(*revCacheValue)
 	if !ok {
 		return
+	}
+	verifMs := int32(0)
+	if base.VerifOn {
+		verifMs = revValue.memState.Load()
 	}
 	rc.lruList.Remove(elem)
 	rc.cacheNumItems.Add(-1)
@@ -414,6 +570,9 @@ func (rc *LRURevisionCache) Remove(ctx context.Context, docID, versionString str
 	if revValue.memState.Swap(memStateRemoved) == memStateSized {
 		rc.memoryController.decrementBytesCount(revValue.getItemBytes())
 	}
+	if base.VerifOn {
+		verifRCLocked(rc, "Remove", revValue, "doc", docID, "ver", versionString, "found", true, "ms", verifMs, "bytes", revValue.getItemBytes())
+	}
 }
 
 // removeValueForFailedLoad removes a value after a failed load. Must only be called for failed loads;
@@ -422,9 +581,20 @@ func (rc *LRURevisionCache) Remove(ctx context.Context, docID, versionString str
 func (rc *LRURevisionCache) removeValueForFailedLoad(value *revCacheValue) {
 	// Mark removed before acquiring the lock so any concurrent CAS-based increment sees the
 	// terminal state and skips, even if it races with this function.
+	if base.VerifOn {
+		verifAtomLock()
+		verifRCAtomic(rc, "FrmMark", value, "ms", value.memState.Load())
+	}
 	value.memState.Store(memStateRemoved)
+	if base.VerifOn {
+		verifAtomUnlock()
+	}
 	rc.lock.Lock()
 	defer rc.lock.Unlock()
+	if base.VerifOn {
+		verifAtomLock()
+		defer verifAtomUnlock()
+	}
 	var itemRemoved bool
 	if element := rc.cache[value.itemKey]; element != nil && element.Value == value {
 		rc.lruList.Remove(element)
@@ -433,6 +603,9 @@ func (rc *LRURevisionCache) removeValueForFailedLoad(value *revCacheValue) {
 	}
 	if itemRemoved {
 		rc.cacheNumItems.Add(-1)
+	}
+	if base.VerifOn {
+		verifRCLocked(rc, "FrmRem", value, "removed", itemRemoved)
 	}
 }
 
@@ -450,8 +623,15 @@ func (rc *LRURevisionCache) _numberCapacityEviction() (numItemsEvicted int64, nu
 		// Only count bytes if they were already accounted in the stat (memStateSized).
 		// If the item was still in memStateLoading the in-flight CAS will fail and skip
 		// the increment, so there is nothing to decrement.
+		verifMs := int32(0)
+		if base.VerifOn {
+			verifMs = value.memState.Load()
+		}
 		if value.memState.Swap(memStateRemoved) == memStateSized {
 			numBytesEvicted += value.getItemBytes()
+		}
+		if base.VerifOn {
+			verifRCLocked(rc, "CapEvict", value, "ms", verifMs, "bytes", value.getItemBytes())
 		}
 	}
 	return numItemsEvicted, numBytesEvicted
@@ -473,6 +653,11 @@ func (value *revCacheValue) load(ctx context.Context, backingStore RevisionCache
 		value.lock.RUnlock()
 
 		docRev, err = value.asDocumentRevision(delta)
+		if base.VerifOn {
+			verifAtomLock()
+			verifVal(value, "Load", "hit", true, "err", err != nil, "bytes", value.getItemBytes())
+			verifAtomUnlock()
+		}
 
 		return docRev, true, err
 	}
@@ -508,10 +693,17 @@ func (value *revCacheValue) load(ctx context.Context, backingStore RevisionCache
 	}
 
 	docRev, err = value.asDocumentRevision(delta)
+	if base.VerifOn {
+		verifAtomLock()
+	}
 	// if not cache hit, we loaded from bucket. Calculate doc rev size and assign to rev cache value
 	if !cacheHit && err == nil {
 		docRev.CalculateBytes()
 		value.itemBytes.Store(docRev.MemoryBytes)
+	}
+	if base.VerifOn {
+		verifVal(value, "Load", "hit", cacheHit, "err", err != nil, "bytes", value.getItemBytes())
+		verifAtomUnlock()
 	}
 
 	return docRev, cacheHit, err
@@ -579,6 +771,11 @@ func (value *revCacheValue) loadForDoc(ctx context.Context, backingStore Revisio
 	if value.bodyBytes != nil || value.err != nil {
 		value.lock.RUnlock()
 		docRev, err = value.asDocumentRevision(nil)
+		if base.VerifOn {
+			verifAtomLock()
+			verifVal(value, "Load", "hit", true, "err", err != nil, "bytes", value.getItemBytes())
+			verifAtomUnlock()
+		}
 
 		return docRev, true, err
 	}
@@ -606,10 +803,17 @@ func (value *revCacheValue) loadForDoc(ctx context.Context, backingStore Revisio
 		}
 	}
 	docRev, err = value.asDocumentRevision(nil)
+	if base.VerifOn {
+		verifAtomLock()
+	}
 	// if not cache hit, we loaded from bucket. Calculate doc rev size and assign to rev cache value
 	if !cacheHit && err == nil {
 		docRev.CalculateBytes()
 		value.itemBytes.Store(docRev.MemoryBytes)
+	}
+	if base.VerifOn {
+		verifVal(value, "Load", "hit", cacheHit, "err", err != nil, "bytes", value.getItemBytes())
+		verifAtomUnlock()
 	}
 	return docRev, cacheHit, err
 }
@@ -618,6 +822,11 @@ func (value *revCacheValue) loadForDoc(ctx context.Context, backingStore Revisio
 func (value *revCacheValue) store(docRev DocumentRevision) {
 	value.lock.Lock()
 	defer value.lock.Unlock()
+	if base.VerifOn {
+		verifAtomLock()
+		defer verifAtomUnlock()
+		defer verifVal(value, "PStore", "stored", value.bodyBytes == nil, "bytes", docRev.MemoryBytes)
+	}
 	if value.bodyBytes == nil {
 		value.revID = docRev.RevID
 		value.id = docRev.DocID
@@ -676,12 +885,22 @@ func (rc *LRURevisionCache) _findEvictionValue() *revCacheValue {
 func (rc *LRURevisionCache) evictLRUTail() (int64, bool) {
 	rc.lock.Lock()
 	defer rc.lock.Unlock()
+	if base.VerifOn {
+		verifAtomLock()
+		defer verifAtomUnlock()
+	}
 	value := rc._findEvictionValue()
 	if value == nil {
+		if base.VerifOn {
+			verifRCLocked(rc, "MeEvict", nil, "found", false)
+		}
 		return 0, false
 	}
 	delete(rc.cache, value.itemKey)
 	rc.cacheNumItems.Add(-1)
+	if base.VerifOn {
+		verifRCLocked(rc, "MeEvict", value, "found", true, "ms", value.memState.Load(), "bytes", value.getItemBytes())
+	}
 	if value.memState.Swap(memStateRemoved) == memStateSized {
 		return value.getItemBytes(), true
 	}
